@@ -11,7 +11,7 @@
 //!   * oracle on the implementation's verdicts: semantic containment / overlap / no-value-dropped
 //!     judged by exhaustive `inhB` over the model's `enumVals` (the meaning of types is defined in
 //!     Lean, Core/Types/Inh.lean), reflexivity, transitivity on all triples of closed ids.
-use qverif::{Ev, Model, Opts, Rng, catch};
+use qverif::{Ev, Opts, Rng, catch};
 use quiver_core::program::Program;
 use quiver_core::types::{is_compatible, types_overlap};
 use serde_json::{Value as J, json};
@@ -22,15 +22,20 @@ mod tygen;
 use tygen::*;
 
 thread_local! {
+    /// (request, table) of model requests that timed out — reported at the end of the run
+    static MODEL_TIMEOUTS: std::cell::RefCell<Vec<(String, String)>> = std::cell::RefCell::new(vec![]);
     static LAST_TABLE: std::cell::RefCell<String> = std::cell::RefCell::new(String::new());
     static TIMES: std::cell::RefCell<std::collections::BTreeMap<String, (u64, f64)>> = std::cell::RefCell::new(Default::default());
 }
 
 /// `model.ask` with per-request-kind timing (printed into the evidence as `model_time_s`).
-fn ask(model: &mut Model, line: &str) -> String {
+fn ask(model: &mut TModel, line: &str) -> String {
     let t0 = std::time::Instant::now();
     let out = model.ask(line);
     let dt = t0.elapsed().as_secs_f64();
+    if out == "model-timeout" {
+        MODEL_TIMEOUTS.with(|t| t.borrow_mut().push((line[..line.len().min(160)].to_string(), model.table_line.clone())));
+    }
     if dt > 2.0 && std::env::var("C09_DUMP").is_ok() {
         eprintln!("[slow {dt:.1}s] {}", &line[..line.len().min(200)]);
         LAST_TABLE.with(|t| eprintln!("    table: {}", t.borrow()));
@@ -54,6 +59,8 @@ const WIDTH: usize = 3;
 struct Case {
     program: Program,
     pool: Vec<(usize, Tm)>,
+    /// (id, id of the root it is a near-miss of)
+    related: Vec<(usize, usize)>,
     stream: &'static str,
 }
 
@@ -69,11 +76,14 @@ fn gen_case(r: &mut Rng) -> Case {
     let mut program = Program::new();
     let n_roots = [1usize, 2, 3, 4, 5, 6, 6, 7, 8, 8, 9, 10, 12][r.usize(13)];
     let mut pool: Vec<(usize, Tm)> = vec![];
+    let mut related: Vec<(usize, usize)> = vec![];
     let mut tries = 0;
     while pool.len() < n_roots && tries < 90 {
         tries += 1;
+        let mut parent: Option<usize> = None;
         let tm = if !pool.is_empty() && r.chance(45, 100) {
-            let base = pool[r.usize(pool.len())].1.clone();
+            let (pid, base) = pool[r.usize(pool.len())].clone();
+            parent = Some(pid);
             let mut m = mutate(&base, r);
             if r.chance(1, 4) {
                 m = mutate(&m, r);
@@ -95,9 +105,12 @@ fn gen_case(r: &mut Rng) -> Case {
         let id = tm.register(&mut program);
         if !pool.iter().any(|(i, _)| *i == id) {
             pool.push((id, tm));
+            if let Some(pid) = parent {
+                related.push((id, pid));
+            }
         }
     }
-    Case { program, pool, stream }
+    Case { program, pool, related, stream }
 }
 
 fn impl_rel(tbl: &Tbl, a: usize, b: usize, any: bool) -> char {
@@ -108,33 +121,363 @@ fn impl_rel(tbl: &Tbl, a: usize, b: usize, any: bool) -> char {
     }
 }
 
-/// Run `is_compatible` / `types_overlap` on one pair in a CHILD process (a stack overflow of the
-/// recursive checker aborts the process and cannot be caught). Returns the verdict char, or
-/// `'!'` when the child died (stack overflow / abort), or `'?'` when it could not be started.
-fn probe_in_child(tbl: &Tbl, a: usize, b: usize, any: bool) -> char {
-    let (sub, img) = tbl.subtable(&[a, b]);
+
+// ---------------------------------------------------------------------------------------------
+// The implementation side runs in a CHILD process (`c09 --impl-server`): the recursive checker
+// can overflow the stack (abort, not catchable) or hang; the parent then restarts the child and
+// pins down the offending pair. Line protocol, tab-separated:
+//   T <table> <names,…>                → ok
+//   R all|any <a> <b>                  → t | f | P
+//   M all|any <ids…> <mask>            → one char per ordered pair (mask '1' = skip → '?')
+//   N intersect|complement <a> <b>     → ok <rid> (types <new>…) (tuples <new>…) | P <msg>
+//   U <ids…>                           → ok <rid> (types <new>…) (tuples <new>…)
+// ---------------------------------------------------------------------------------------------
+
+fn impl_server_main() {
+    use std::io::{BufRead, Write};
+    qverif::quiet_panics();
+    let stdin = std::io::stdin();
+    let mut out = std::io::stdout();
     let mut names = Names::new();
-    let sx = sub.sx(&mut names);
-    let Ok(exe) = std::env::current_exe() else { return '?' };
-    let out = std::process::Command::new(exe)
-        .arg("--probe")
-        .arg(&sx)
-        .arg(names.names.join(","))
-        .arg(img[0].to_string())
-        .arg(img[1].to_string())
-        .arg(if any { "any" } else { "all" })
-        .stderr(std::process::Stdio::null())
-        .output();
-    match out {
-        Ok(o) if o.status.success() => String::from_utf8_lossy(&o.stdout).trim().chars().next().unwrap_or('?'),
-        Ok(_) => '!',
-        Err(_) => '?',
+    let mut tbl = Tbl::default();
+    let mut program: Option<Program> = None;
+    for line in stdin.lock().lines() {
+        let Ok(line) = line else { break };
+        let f: Vec<&str> = line.split('\t').collect();
+        let ans: String = match f.first().copied() {
+            Some("T") => {
+                names = Names::new();
+                for n in f.get(2).unwrap_or(&"").split(',').filter(|s| !s.is_empty()) {
+                    names.id(n);
+                }
+                match Tbl::parse(f.get(1).unwrap_or(&""), &names) {
+                    Some(t) => {
+                        program = t.to_program();
+                        tbl = t;
+                        "ok".into()
+                    }
+                    None => "bad-table".into(),
+                }
+            }
+            Some("R") => {
+                let (a, b): (usize, usize) = (f[2].parse().unwrap_or(0), f[3].parse().unwrap_or(0));
+                impl_rel(&tbl, a, b, f[1] == "any").to_string()
+            }
+            Some("M") => {
+                let ids: Vec<usize> = f[2].split(' ').filter_map(|x| x.parse().ok()).collect();
+                let mask: Vec<char> = f.get(3).unwrap_or(&"").chars().collect();
+                let k = ids.len();
+                let mut s = String::with_capacity(k * k);
+                for (x, &a) in ids.iter().enumerate() {
+                    for (y, &b) in ids.iter().enumerate() {
+                        if mask.get(x * k + y) == Some(&'1') {
+                            s.push('?');
+                        } else {
+                            s.push(impl_rel(&tbl, a, b, f[1] == "any"));
+                        }
+                    }
+                }
+                s
+            }
+            Some("N") | Some("U") => match &program {
+                None => "no-program".into(),
+                Some(p) => {
+                    let mut p2 = p.clone();
+                    let res = if f[0] == "N" {
+                        let (a, b): (usize, usize) = (f[2].parse().unwrap_or(0), f[3].parse().unwrap_or(0));
+                        let op = f[1].to_string();
+                        catch(|| {
+                            if op == "intersect" {
+                                quiver_compiler::compiler::verif::intersect_types(a, b, &mut p2)
+                            } else {
+                                quiver_compiler::compiler::verif::compute_complement(a, b, &mut p2)
+                            }
+                        })
+                    } else {
+                        let ids: Vec<usize> = f[1].split(' ').filter_map(|x| x.parse().ok()).collect();
+                        catch(|| quiver_compiler::compiler::union_type_ids(&mut p2, ids))
+                    };
+                    match res {
+                        Ok(rid) => {
+                            let t2 = Tbl::of_program(&p2);
+                            let mut n2 = names.clone();
+                            format!("ok {rid} {}", entries_sx(&t2.types[tbl.types.len()..], &t2.tuples[tbl.tuples.len()..], &mut n2))
+                        }
+                        Err(m) => format!("P {}", m.lines().next().unwrap_or("")),
+                    }
+                }
+            },
+            _ => "bad-request".into(),
+        };
+        let _ = writeln!(out, "{ans}");
+        let _ = out.flush();
+    }
+}
+
+struct ImplServer {
+    child: std::process::Child,
+    stdin: std::process::ChildStdin,
+    rx: std::sync::mpsc::Receiver<String>,
+    table_line: String,
+    pub restarts: u64,
+    /// requests that got no answer within their time limit (each costs the limit: after a few
+    /// of them the affected operation is no longer requested in this run — the hangs are reported)
+    pub hangs: u64,
+}
+
+/// why a request got no answer
+#[derive(Clone, Copy, Debug, PartialEq, Eq)]
+enum Dead {
+    Crash,
+    Hang,
+}
+
+impl Dead {
+    fn text(&self) -> &'static str {
+        match self {
+            Dead::Crash => "the process aborts (stack overflow)",
+            Dead::Hang => "no answer within the time limit",
+        }
+    }
+}
+
+impl ImplServer {
+    fn spawn_child() -> (std::process::Child, std::process::ChildStdin, std::sync::mpsc::Receiver<String>) {
+        use std::io::BufRead;
+        let exe = std::env::current_exe().expect("current_exe");
+        let mut child = std::process::Command::new(exe)
+            .arg("--impl-server")
+            .stdin(std::process::Stdio::piped())
+            .stdout(std::process::Stdio::piped())
+            .stderr(std::process::Stdio::null())
+            .spawn()
+            .expect("spawn impl server");
+        let stdin = child.stdin.take().unwrap();
+        let stdout = child.stdout.take().unwrap();
+        let (tx, rx) = std::sync::mpsc::channel();
+        std::thread::spawn(move || {
+            let rd = std::io::BufReader::new(stdout);
+            for l in rd.lines() {
+                let Ok(l) = l else { break };
+                if tx.send(l).is_err() {
+                    break;
+                }
+            }
+        });
+        (child, stdin, rx)
+    }
+    fn new() -> ImplServer {
+        let (child, stdin, rx) = Self::spawn_child();
+        ImplServer { child, stdin, rx, table_line: String::new(), restarts: 0, hangs: 0 }
+    }
+    fn restart(&mut self) {
+        let _ = self.child.kill();
+        let _ = self.child.wait();
+        let (child, stdin, rx) = Self::spawn_child();
+        self.child = child;
+        self.stdin = stdin;
+        self.rx = rx;
+        self.restarts += 1;
+        if !self.table_line.is_empty() {
+            let l = self.table_line.clone();
+            let _ = self.raw(&l, 30);
+        }
+    }
+    fn raw(&mut self, line: &str, timeout_s: u64) -> Result<String, Dead> {
+        use std::io::Write;
+        if self.stdin.write_all(line.as_bytes()).is_err() || self.stdin.write_all(b"\n").is_err() || self.stdin.flush().is_err() {
+            return Err(Dead::Crash);
+        }
+        match self.rx.recv_timeout(std::time::Duration::from_secs(timeout_s)) {
+            Ok(l) => Ok(l),
+            Err(std::sync::mpsc::RecvTimeoutError::Timeout) => Err(Dead::Hang),
+            Err(std::sync::mpsc::RecvTimeoutError::Disconnected) => Err(Dead::Crash),
+        }
+    }
+    /// send a request; on death restart the child (table re-sent) and report why
+    fn request(&mut self, line: &str, timeout_s: u64) -> Result<String, Dead> {
+        match self.raw(line, timeout_s) {
+            Ok(l) => Ok(l),
+            Err(d) => {
+                if d == Dead::Hang {
+                    self.hangs += 1;
+                }
+                self.restart();
+                Err(d)
+            }
+        }
+    }
+    fn set_table(&mut self, tbl: &Tbl) -> Names {
+        let mut names = Names::new();
+        let sx = tbl.sx(&mut names);
+        self.table_line = format!("T\t{sx}\t{}", names.names.join(","));
+        let l = self.table_line.clone();
+        if self.request(&l, 30).is_err() {
+            // restart() already re-sent it
+        }
+        names
+    }
+    fn rel(&mut self, a: usize, b: usize, any: bool) -> Result<char, Dead> {
+        self.request(&format!("R\t{}\t{a}\t{b}", if any { "any" } else { "all" }), 10).map(|s| s.chars().next().unwrap_or('?'))
+    }
+    /// all ordered pairs of `ids` (row-major); `skip[i]` = do not call the implementation there.
+    /// A pair on which the child dies is marked '!' (abort) or 'H' (hang); after `max_deaths`
+    /// deaths the remaining pairs of this matrix stay '?'.
+    fn matrix(&mut self, ids: &[usize], any: bool, skip: &[bool], max_deaths: usize) -> Vec<char> {
+        let k = ids.len();
+        let idl = ids.iter().map(|i| i.to_string()).collect::<Vec<_>>().join(" ");
+        let mask: String = skip.iter().map(|s| if *s { '1' } else { '0' }).collect();
+        let mode = if any { "any" } else { "all" };
+        if self.restarts > 400 {
+            // too many deaths in this run: stop asking (everything so far has been reported)
+            return vec!['?'; k * k];
+        }
+        if let Ok(s) = self.request(&format!("M\t{mode}\t{idl}\t{mask}"), 20) {
+            let v: Vec<char> = s.chars().collect();
+            if v.len() == k * k {
+                return v;
+            }
+        }
+        // the child died somewhere in this matrix: go pair by pair
+        let mut out = vec!['?'; k * k];
+        let mut deaths = 0;
+        for x in 0..k {
+            for y in 0..k {
+                if skip[x * k + y] || deaths >= max_deaths {
+                    continue;
+                }
+                match self.rel(ids[x], ids[y], any) {
+                    Ok(c) => out[x * k + y] = c,
+                    Err(Dead::Crash) => {
+                        out[x * k + y] = '!';
+                        deaths += 1;
+                    }
+                    Err(Dead::Hang) => {
+                        out[x * k + y] = 'H';
+                        deaths += 1;
+                    }
+                }
+            }
+        }
+        out
+    }
+}
+
+impl Drop for ImplServer {
+    fn drop(&mut self) {
+        let _ = self.child.kill();
+        let _ = self.child.wait();
     }
 }
 
 fn has_higher_order(tbl: &Tbl, roots: &[usize]) -> bool {
     let (ty, _) = tbl.reachable(roots);
     ty.iter().any(|i| matches!(tbl.kind(*i), "fn" | "process"))
+}
+
+
+/// does the sub-graph reachable from `roots` contain a `Cycle` node?
+fn reach_has_cycle(tbl: &Tbl, roots: &[usize]) -> bool {
+    let (ty, _) = tbl.reachable(roots);
+    ty.iter().any(|i| tbl.kind(*i) == "cycle")
+}
+
+/// declared type ids of the function / process values inside a rendered value
+fn declared_ids(value: &str) -> Vec<usize> {
+    let mut out = vec![];
+    for pat in ["(f ", "(p "] {
+        let mut rest = value;
+        while let Some(i) = rest.find(pat) {
+            let tail = &rest[i + pat.len()..];
+            let num: String = tail.chars().take_while(|c| c.is_ascii_digit()).collect();
+            if let Ok(n) = num.parse() {
+                out.push(n);
+            }
+            rest = tail;
+        }
+    }
+    out
+}
+
+/// Mechanism of a soundness / transitivity failure on recursive types (notes/C09.md R1): a
+/// left-hand `Cycle` met a right-hand stack. Necessary for that mechanism: a `Cycle` is reachable
+/// from the left type, or from the declared type of a function / process value in the witness.
+fn mech_left_cycle(tbl: &Tbl, left: &[usize], witness: &str) -> bool {
+    reach_has_cycle(tbl, left) || declared_ids(witness).iter().any(|d| reach_has_cycle(tbl, &[*d]))
+}
+
+fn variants_of(tbl: &Tbl, id: usize) -> Vec<usize> {
+    match tbl.types.get(id) {
+        Some(quiver_core::types::Type::Union(v)) => v.clone(),
+        Some(_) => vec![id],
+        None => vec![],
+    }
+}
+
+/// Mechanism of a dropped value in `compute_complement` / `intersect_types` on recursive types
+/// (notes/C09.md R3). Each test is a necessary condition of the named mechanism, evaluated on the
+/// sub-graphs reachable from the two operands.
+fn mech_narrow(tbl: &Tbl, op: &str, a: usize, b: usize) -> Option<&'static str> {
+    use quiver_core::types::Type;
+    let (ra, rua) = tbl.reachable(&[a]);
+    let (rb, rub) = tbl.reachable(&[b]);
+    let tuple_type_ids = |r: &BTreeSet<usize>| -> Vec<usize> { r.iter().copied().filter(|i| tbl.kind(*i) == "tuple").collect() };
+    let _ = (&rua, &rub);
+    let (ta, tb) = (tuple_type_ids(&ra), tuple_type_ids(&rb));
+    let info = |id: usize| match tbl.types.get(id) {
+        Some(Type::Tuple(t)) => tbl.tuples.get(*t),
+        _ => None,
+    };
+    if op == "complement" {
+        // (i) cyclic tuples of the same name and arity whose labels differ: subtract_one skips the
+        // is_compatible / types_overlap shortcuts and its structural difference never looks at labels
+        for &x in &ta {
+            for &y in &tb {
+                if let (Some(ia), Some(ib)) = (info(x), info(y)) {
+                    let labels = |t: &quiver_core::types::TupleTypeInfo| t.fields.iter().map(|f| f.0.clone()).collect::<Vec<_>>();
+                    if ia.name == ib.name && ia.fields.len() == ib.fields.len() && labels(ia) != labels(ib) && (reach_has_cycle(tbl, &[x]) || reach_has_cycle(tbl, &[y])) {
+                        return Some("subtract=cyclic-tuple-difference-ignores-labels");
+                    }
+                }
+            }
+        }
+    }
+    // (v) the operation rebuilds a tuple around a narrowed cyclic union: the `^` of the variants kept
+    // inside re-bind to the narrowed union, and a union narrowed to one variant loses its boundary
+    for &x in &ta {
+        for &y in &tb {
+            if let (Some(ia), Some(ib)) = (info(x), info(y)) {
+                if x != y && ia.name == ib.name && ia.fields.len() == ib.fields.len() {
+                    for k in 0..ia.fields.len() {
+                        let (f1, f2) = (ia.fields[k].1, ib.fields[k].1);
+                        // (intersect_types does not shortcut on equal ids: it re-unions the pieces,
+                        // dropping `never` variants, so even an identical field union is rebuilt)
+                        if (f1 != f2 || op == "intersect") && tbl.kind(f1) == "union" && reach_has_cycle(tbl, &[f1]) {
+                            return Some("narrow=inner-cyclic-union-rebuilt");
+                        }
+                    }
+                }
+            }
+        }
+    }
+    // (iv) a nested union with cycles inside is flattened by union_type_ids
+    if variants_of(tbl, a).iter().chain(variants_of(tbl, b).iter()).any(|x| matches!(tbl.types.get(*x), Some(Type::Union(_))) && reach_has_cycle(tbl, &[*x])) {
+        return Some("union=flatten-changes-cycle-depth");
+    }
+    if op == "complement" {
+        // (iii) contains_cycle does not look into callable / process types
+        if ra.iter().chain(rb.iter()).any(|i| matches!(tbl.kind(*i), "fn" | "process") && reach_has_cycle(tbl, &[*i])) {
+            return Some("subtract=contains-cycle-ignores-callable-process");
+        }
+        // (ii) an id with free cycles (a bare `^`, or a variant containing one) is reachable from
+        // both operands and subtracted as "the same type" (`a == b => []`) although its cycles
+        // point into two different unions
+        let open_shared = ra.iter().any(|i| rb.contains(i) && a != b && reach_has_cycle(tbl, &[*i]));
+        if open_shared {
+            return Some("subtract=free-cycle-ids-identified-across-unions");
+        }
+    }
+    None
 }
 
 /// `(v <value>)` → `<value>`
@@ -178,7 +521,7 @@ impl Side {
 
 /// structural class of what fails: descend along the witness to the innermost pair of types on
 /// which the implementation's (top-level) verdict is still wrong, and name the two node kinds.
-fn diagnose(tbl: &Tbl, model: &mut Model, a: usize, b: usize, witness: &str, any: bool) -> String {
+fn diagnose(tbl: &Tbl, model: &mut TModel, a: usize, b: usize, witness: &str, any: bool) -> String {
     use quiver_core::types::Type;
     let Some(v) = Sx::parse(witness).and_then(|x| x.into_iter().next()) else {
         return format!("{}-vs-{}", tbl.kind(a), tbl.kind(b));
@@ -186,12 +529,12 @@ fn diagnose(tbl: &Tbl, model: &mut Model, a: usize, b: usize, witness: &str, any
     let mut a = Side { id: a, st: vec![] };
     let mut b = Side { id: b, st: vec![] };
     let mut v = v;
-    let inh = |model: &mut Model, t: &Side, v: &Sx| {
+    let inh = |model: &mut TModel, t: &Side, v: &Sx| {
         let st = t.st.iter().map(|i| format!(" {i}")).collect::<String>();
         ask(model, &format!("(inh {} {}{st})", t.id, v.render())) == "true"
     };
     // is the implementation's verdict on (x, y) wrong *because of v*?
-    let wrong = |x: &Side, y: &Side, v: &Sx, model: &mut Model| -> bool {
+    let wrong = |x: &Side, y: &Side, v: &Sx, model: &mut TModel| -> bool {
         // the model's verdict stands in for the implementation's here (they were compared on
         // every pair already; the model cannot overflow the stack on a non-terminating pair)
         if any {
@@ -339,9 +682,9 @@ fn replay_json(tbl: &Tbl, roots: &[usize], extra: J) -> J {
 }
 
 /// run one table: correspondence + oracle. `pool` = ids generated as closed roots.
-fn run_table(ev: &mut Ev, model: &mut Model, program: &Program, pool: &[usize], stream: &str, case_key: &str, r: &mut Rng, narrow_pairs: usize) {
+fn run_table(ev: &mut Ev, model: &mut TModel, srv: &mut ImplServer, program: &Program, pool: &[usize], related: &[(usize, usize)], stream: &str, case_key: &str, r: &mut Rng, narrow_pairs: usize) {
     let tbl = Tbl::of_program(program);
-    let mut names = Names::new();
+    let mut names = srv.set_table(&tbl);
     let ans = ask(model, &tbl.sx(&mut names));
     if !ans.starts_with("ok ") {
         report(ev, "driver=table-rejected", &format!("model driver rejected a table: {ans}"), json!({"broken": "driver protocol", "table": tbl.sx(&mut names)}), false);
@@ -371,32 +714,59 @@ fn run_table(ev: &mut Ev, model: &mut Model, program: &Program, pool: &[usize], 
         report(ev, "driver=matrix-malformed", "model driver answered a malformed matrix", json!({"broken": "driver protocol"}), false);
         return;
     }
-    let mut i_compat = vec!['?'; k * k];
-    let mut i_overlap = vec!['?'; k * k];
+    // the implementation runs in the child; pairs on which the model ran out of fuel are skipped
+    // in the bulk request (expected not to terminate) and probed one by one below
+    let skip_c: Vec<bool> = m_compat.iter().map(|c| *c == '?').collect();
+    let skip_o: Vec<bool> = m_overlap.iter().map(|c| *c == '?').collect();
+    let i_compat = srv.matrix(&ids, false, &skip_c, 4);
+    let i_overlap = srv.matrix(&ids, true, &skip_o, 4);
+    let mut fuel_probes = 0;
     for (x, &a) in ids.iter().enumerate() {
         for (y, &b) in ids.iter().enumerate() {
             for any in [false, true] {
                 let m = if any { m_overlap[x * k + y] } else { m_compat[x * k + y] };
                 let opname = if any { "types_overlap" } else { "is_compatible" };
                 if m == '?' {
-                    // the model ran out of fuel: do not risk unbounded recursion in-process; ask a
-                    // child process whether the implementation terminates on this pair
+                    // the model ran out of fuel: ask the child whether the implementation terminates
                     ev.hit(&format!("{opname}:model-fuel-out"));
-                    let c = probe_in_child(&tbl, a, b, any);
-                    if c == '!' {
-                        ev.hit(&format!("{opname}:impl-stack-overflow-confirmed-in-child"));
-                        report(ev, "nontermination:check_type_relation (recursion through a callable)",
-                            &format!("{opname}({}, {}) does not terminate (stack overflow in a child process; the model runs out of fuel)", tbl.show(a), tbl.show(b)),
-                            replay_json(&tbl, &[a, b], json!({"op": opname, "impl": "stack overflow (child process aborted)", "model": "fuel-out"})), true);
-                    } else {
-                        report(ev, &format!("corr={opname} model-fuel-out impl={c}"),
-                            &format!("model ran out of fuel on {opname}({}, {}) but the implementation answers {c}", tbl.show(a), tbl.show(b)),
-                            replay_json(&tbl, &[a, b], json!({"broken": format!("correspondence model<->impl on {opname} (model fuel exhausted, implementation terminates)"), "op": opname, "impl": c.to_string()})), false);
+                    if fuel_probes >= 3 {
+                        continue;
+                    }
+                    fuel_probes += 1;
+                    match srv.rel(a, b, any) {
+                        Err(d) => {
+                            ev.hit(&format!("{opname}:impl-does-not-return-confirmed-in-child"));
+                            let sig = if has_higher_order(&tbl, &[a, b]) && reach_has_cycle(&tbl, &[a, b]) {
+                                "compat=callable-arm-no-assumption-nontermination".to_string()
+                            } else {
+                                format!("nontermination:check_type_relation {}-vs-{}", tbl.kind(a), tbl.kind(b))
+                            };
+                            report(ev, &sig,
+                                &format!("{opname}({}, {}) does not return ({}; the model runs out of fuel)", tbl.show(a), tbl.show(b), d.text()),
+                                replay_json(&tbl, &[a, b], json!({"op": opname, "impl": d.text(), "model": "fuel-out"})), true);
+                        }
+                        Ok(c) => {
+                            report(ev, &format!("corr={opname} model-fuel-out impl={c}"),
+                                &format!("model ran out of fuel on {opname}({}, {}) but the implementation answers {c}", tbl.show(a), tbl.show(b)),
+                                replay_json(&tbl, &[a, b], json!({"broken": format!("correspondence model<->impl on {opname} (model fuel exhausted, implementation terminates)"), "op": opname, "impl": c.to_string()})), false);
+                        }
                     }
                     continue;
                 }
-                let i = impl_rel(&tbl, a, b, any);
-                if any { i_overlap[x * k + y] = i } else { i_compat[x * k + y] = i }
+                let i = if any { i_overlap[x * k + y] } else { i_compat[x * k + y] };
+                if i == '?' {
+                    ev.hit(&format!("{opname}:not-probed-after-child-deaths"));
+                    continue;
+                }
+                if i == '!' || i == 'H' {
+                    // the implementation does not return where the model of the code has a verdict
+                    let d = if i == '!' { Dead::Crash } else { Dead::Hang };
+                    ev.hit(&format!("{opname}:impl-does-not-return"));
+                    report(ev, &format!("impl-no-answer:{opname} model={m} {}-vs-{}", tbl.kind(a), tbl.kind(b)),
+                        &format!("{opname}({}, {}) does not return ({}); the model of the code answers {m}", tbl.show(a), tbl.show(b), d.text()),
+                        replay_json(&tbl, &[a, b], json!({"op": opname, "impl": d.text(), "model": m.to_string(), "broken": format!("correspondence model<->impl on {opname}: the type checker crashes / hangs on this pair")})), true);
+                    continue;
+                }
                 ev.hit(&format!("{opname}:{i}"));
                 if a != b {
                     ev.hit(&format!("pair-kind:{}/{}", tbl.kind(a), tbl.kind(b)));
@@ -478,7 +848,14 @@ fn run_table(ev: &mut Ev, model: &mut Model, program: &Program, pool: &[usize], 
                 let cls = diagnose(&tbl, model, a, b, unwrap_v(&w), false);
                 let w2 = w.clone();
                 ev.hit("oracle:compat-unsound");
-                report(ev, &(if fo { format!("compat-unsound:{cls}") } else { "compat-unsound (recursive/higher-order)".to_string() }),
+                let sig = if fo {
+                    format!("compat-unsound:{cls}")
+                } else if mech_left_cycle(&tbl, &[a], &w) {
+                    "compat=left-cycle-resolved-on-right-stack".to_string()
+                } else {
+                    format!("compat-unsound:{cls} (recursive/higher-order)")
+                };
+                report(ev, &sig,
                     &format!("is_compatible({}, {}) = true but the value {w2} inhabits only the left type", tbl.show(a), tbl.show(b)),
                     replay_json(&tbl, &[a, b], json!({"op": "is_compatible", "impl": "true", "witness": w, "class": cls, "first_order": fo})), true);
             }
@@ -495,7 +872,21 @@ fn run_table(ev: &mut Ev, model: &mut Model, program: &Program, pool: &[usize], 
                 let cls = diagnose(&tbl, model, a, b, unwrap_v(&w), true);
                 ev.hit("oracle:overlap-incomplete");
                 ev.hit(&format!("overlap-incomplete-innermost:{cls}"));
-                report(ev, &(if fo { format!("overlap-incomplete:{cls}") } else { "overlap-incomplete (recursive/higher-order)".to_string() }),
+                let sig = if fo {
+                    format!("overlap-incomplete:{cls}")
+                } else if matches!(cls.as_str(), "fn-vs-fn" | "process-vs-process") || unwrap_v(&w).starts_with("(f ") || unwrap_v(&w).starts_with("(p ") {
+                    // the innermost wrong pair is callable-vs-callable, or the common value itself is
+                    // a function / process value (then the failing comparison is between callable
+                    // types even if `diagnose`, which uses context-free verdicts, stopped earlier)
+                    "overlap=callable-components-by-overlap".to_string()
+                } else if reach_has_cycle(&tbl, &[a]) {
+                    // a left-hand Cycle resolved against the right-hand stack makes a variant look
+                    // disjoint (same mechanism as R1, in overlap mode)
+                    "overlap=left-cycle-resolved-on-right-stack".to_string()
+                } else {
+                    format!("overlap-incomplete:{cls} (recursive/higher-order)")
+                };
+                report(ev, &sig,
                     &format!("types_overlap({}, {}) = false but the value {w} inhabits both types", tbl.show(a), tbl.show(b)),
                     replay_json(&tbl, &[a, b], json!({"op": "types_overlap", "impl": "false", "witness": w, "class": cls, "first_order": fo})), true);
             }
@@ -521,7 +912,14 @@ fn run_table(ev: &mut Ev, model: &mut Model, program: &Program, pool: &[usize], 
                 if i_compat[pa * k + pc] == 'f' {
                     ev.hit("oracle:not-transitive");
                     let fo3 = [a, b, cc].iter().all(|i| classes.get(*i) == Some(&'f'));
-                    report(ev, &(if fo3 { format!("compat-not-transitive:{}-{}-{}", tbl.kind(a), tbl.kind(b), tbl.kind(cc)) } else { "compat-not-transitive (recursive/higher-order)".to_string() }),
+                    let sig = if fo3 {
+                        format!("compat-not-transitive:{}-{}-{}", tbl.kind(a), tbl.kind(b), tbl.kind(cc))
+                    } else if reach_has_cycle(&tbl, &[a, b]) {
+                        "compat-not-transitive=left-cycle-resolved-on-right-stack".to_string()
+                    } else {
+                        format!("compat-not-transitive:{}-{}-{} (recursive/higher-order)", tbl.kind(a), tbl.kind(b), tbl.kind(cc))
+                    };
+                    report(ev, &sig,
                         &format!("is_compatible is not transitive: {} ≤ {} ≤ {} but not {} ≤ {}", tbl.show(a), tbl.show(b), tbl.show(cc), tbl.show(a), tbl.show(cc)),
                         replay_json(&tbl, &[a, b, cc], json!({"op": "is_compatible", "triple": true})), true);
                 }
@@ -536,9 +934,17 @@ fn run_table(ev: &mut Ev, model: &mut Model, program: &Program, pool: &[usize], 
     if closed.is_empty() {
         return;
     }
+    let rel: Vec<(usize, usize)> = related.iter().copied().filter(|(x, y)| closed.contains(x) && closed.contains(y)).collect();
     for _ in 0..narrow_pairs {
-        let a = closed[r.usize(closed.len())];
-        let b = closed[r.usize(closed.len())];
+        // mostly a root against its near-miss (either order), else any two closed ids
+        let (a, b) = if !rel.is_empty() && r.chance(3, 5) {
+            let (x, y) = rel[r.usize(rel.len())];
+            ev.hit("narrow-pair:near-miss");
+            if r.chance(1, 2) { (x, y) } else { (y, x) }
+        } else {
+            ev.hit("narrow-pair:random");
+            (closed[r.usize(closed.len())], closed[r.usize(closed.len())])
+        };
         for op in ["intersect", "complement"] {
             // the model goes first: when it runs out of fuel the implementation may not terminate
             // (the narrowing helpers call is_compatible / types_overlap on the variants)
@@ -547,23 +953,42 @@ fn run_table(ev: &mut Ev, model: &mut Model, program: &Program, pool: &[usize], 
                 ev.hit(&format!("{op}:model-fuel-out (implementation not called)"));
                 continue;
             }
-            let mut p2 = program.clone();
-            let res = catch(|| {
-                if op == "intersect" {
-                    quiver_compiler::compiler::verif::intersect_types(a, b, &mut p2)
-                } else {
-                    quiver_compiler::compiler::verif::compute_complement(a, b, &mut p2)
-                }
-            });
             ev.case(&(case_key, op, a, b), a != b);
-            let rid = match res {
-                Ok(id) => id,
-                Err(p) => {
-                    report(ev, &format!("{op}=panic"), &format!("{op}({}, {}) panics: {p}", tbl.show(a), tbl.show(b)), replay_json(&tbl, &[a, b], json!({"op": op, "impl": "panic"})), true);
+            if srv.hangs >= 4 {
+                ev.hit(&format!("{op}:not-requested-after-repeated-hangs"));
+                continue;
+            }
+            let ans = srv.request(&format!("N\t{op}\t{a}\t{b}"), 6);
+            let (rid, t2) = match ans {
+                Err(d) => {
+                    ev.hit(&format!("{op}:impl-does-not-return"));
+                    report(ev, &format!("impl-no-answer:{op} {}-vs-{}", tbl.kind(a), tbl.kind(b)),
+                        &format!("{op}({}, {}) does not return ({}); the model of the code answers {}", tbl.show(a), tbl.show(b), d.text(), &m[..m.len().min(60)]),
+                        replay_json(&tbl, &[a, b], json!({"op": op, "impl": d.text(), "model": m, "broken": format!("correspondence model<->impl on {op}: the narrowing helper crashes / hangs on this pair")})), true);
                     continue;
                 }
+                Ok(l) if l.starts_with("P ") => {
+                    report(ev, &format!("{op}=panic"), &format!("{op}({}, {}) panics: {l}", tbl.show(a), tbl.show(b)), replay_json(&tbl, &[a, b], json!({"op": op, "impl": "panic"})), true);
+                    continue;
+                }
+                Ok(l) => {
+                    let parsed = Sx::parse(&l).and_then(|xs| {
+                        let rid = xs.get(1)?.nat()?;
+                        let (nt, nu) = entries_of_sx(&xs, 2, &names)?;
+                        let mut t2 = tbl.clone();
+                        t2.types.extend(nt);
+                        t2.tuples.extend(nu);
+                        Some((rid, t2))
+                    });
+                    match parsed {
+                        Some(x) => x,
+                        None => {
+                            report(ev, "impl-server=malformed", &format!("implementation server answered `{l}`"), json!({"broken": "harness impl server"}), false);
+                            continue;
+                        }
+                    }
+                }
             };
-            let t2 = Tbl::of_program(&p2);
             let impl_canon = t2.canon(rid);
             ev.hit(&format!("{op}:{}", if t2.kind(rid) == "never" { "never" } else if rid == a { "left-unchanged" } else { "other" }));
             // model result
@@ -601,9 +1026,14 @@ fn run_table(ev: &mut Ev, model: &mut Model, program: &Program, pool: &[usize], 
                 // narrowing of recursive / higher-order types is a known-unsound area, see notes)
                 let sig = if fo {
                     format!("{op}-drops:{}-vs-{}", tbl.kind(a), tbl.kind(b))
+                } else if op == "intersect" && !declared_ids(&keeps).is_empty() {
+                    // the dropped value contains a function / process value: the callable arm of
+                    // intersect_pair falls back to types_overlap (notes R2)
+                    "intersect=callable-overlap-fallback".to_string()
+                } else if let Some(m) = mech_narrow(&tbl, op, a, b) {
+                    m.to_string()
                 } else {
-                    ev.hit(&format!("{op}-drops:{}", if has_higher_order(&tbl, &[a, b]) { "higher-order" } else { "recursive" }));
-                    format!("{op}-drops (recursive/higher-order)")
+                    format!("{op}-drops:{}-vs-{} (recursive/higher-order)", tbl.kind(a), tbl.kind(b))
                 };
                 report(ev, &sig,
                     &format!("{op}({}, {}) = {} drops the value {keeps}", tbl.show(a), tbl.show(b), t2.show(rid)),
@@ -622,9 +1052,27 @@ fn run_table(ev: &mut Ev, model: &mut Model, program: &Program, pool: &[usize], 
     for _ in 0..2 {
         let len = 1 + r.usize(4);
         let idsu: Vec<usize> = (0..len).map(|_| r.usize(n)).collect();
-        let mut p2 = program.clone();
-        let rid = quiver_compiler::compiler::union_type_ids(&mut p2, idsu.clone());
-        let t2 = Tbl::of_program(&p2);
+        if srv.hangs >= 4 {
+            ev.hit("union_type_ids:not-requested-after-repeated-hangs");
+            continue;
+        }
+        let ans = srv.request(&format!("U\t{}", idsu.iter().map(|i| i.to_string()).collect::<Vec<_>>().join(" ")), 6);
+        let parsed = match &ans {
+            Ok(l) => Sx::parse(l).and_then(|xs| {
+                let rid = xs.get(1)?.nat()?;
+                let (nt, nu) = entries_of_sx(&xs, 2, &names)?;
+                let mut t2 = tbl.clone();
+                t2.types.extend(nt);
+                t2.tuples.extend(nu);
+                Some((rid, t2))
+            }),
+            Err(_) => None,
+        };
+        let Some((rid, t2)) = parsed else {
+            report(ev, "impl-no-answer:union_type_ids", &format!("union_type_ids({idsu:?}) gives no result: {ans:?}"),
+                replay_json(&tbl, &idsu, json!({"op": "union", "impl": format!("{ans:?}"), "broken": "correspondence model<->impl on union_type_ids: no result"})), true);
+            continue;
+        };
         let m = ask(model, &format!("(union {})", idsu.iter().map(|i| i.to_string()).collect::<Vec<_>>().join(" ")));
         ev.case(&(case_key, "union", &idsu), true);
         let mut model_canon = String::from("?");
@@ -645,7 +1093,7 @@ fn run_table(ev: &mut Ev, model: &mut Model, program: &Program, pool: &[usize], 
 }
 
 /// regression corpus: tables with expected verdicts (reproducing inputs of repaired defects).
-fn run_corpus(ev: &mut Ev, model: &mut Model) {
+fn run_corpus(ev: &mut Ev, model: &mut TModel, srv: &mut ImplServer) {
     let dir = "/verif/corpus/C09";
     let mut files: Vec<_> = std::fs::read_dir(dir).map(|d| d.filter_map(|e| e.ok()).map(|e| e.path()).collect()).unwrap_or_default();
     files.sort();
@@ -669,14 +1117,18 @@ fn run_corpus(ev: &mut Ev, model: &mut Model) {
             continue;
         };
         let tbl = Tbl::of_program(&program);
-        let mut n2 = Names::new();
+        let mut n2 = srv.set_table(&tbl);
         ask(model, &tbl.sx(&mut n2));
         for c in j["checks"].as_array().cloned().unwrap_or_default() {
             let op = c["op"].as_str().unwrap_or("");
             let (a, b) = (c["a"].as_u64().unwrap_or(0) as usize, c["b"].as_u64().unwrap_or(0) as usize);
             let expect = c["expect"].as_bool().unwrap_or(false);
             let any = op == "overlap";
-            let i = impl_rel(&tbl, a, b, any);
+            let i = match srv.rel(a, b, any) {
+                Ok(c) => c,
+                Err(Dead::Crash) => '!',
+                Err(Dead::Hang) => 'H',
+            };
             let m = ask(model, &format!("({op} {a} {b})"));
             ev.case(&(f.to_string_lossy().to_string(), op, a, b), true);
             ev.hit("corpus-check");
@@ -695,18 +1147,10 @@ fn run_corpus(ev: &mut Ev, model: &mut Model) {
 }
 
 fn main() {
-    // child mode: `c09 --probe <table> <names,…> <a> <b> all|any` prints the verdict char
+    // child mode: `c09 --impl-server` answers implementation requests (see ImplServer)
     let argv: Vec<String> = std::env::args().collect();
-    if argv.get(1).map(|s| s.as_str()) == Some("--probe") {
-        let mut names = Names::new();
-        for n in argv[3].split(',').filter(|s| !s.is_empty()) {
-            names.id(n);
-        }
-        let tbl = Tbl::parse(&argv[2], &names).expect("table");
-        let (a, b): (usize, usize) = (argv[4].parse().unwrap(), argv[5].parse().unwrap());
-        let any = argv[6] == "any";
-        let v = if any { types_overlap(a, b, &tbl) } else { is_compatible(a, b, &tbl) };
-        println!("{}", if v { 't' } else { 'f' });
+    if argv.get(1).map(|s| s.as_str()) == Some("--impl-server") {
+        impl_server_main();
         return;
     }
     qverif::quiet_panics();
@@ -717,7 +1161,7 @@ fn main() {
                1-12 generated roots per table, 45% of them one-edit near-misses of an earlier root; every ordered pair of type ids \
                (roots and sub-components) is one case per operation; a case is non-trivial when the two ids differ; distinct by (table, op, pair)"
         .into();
-    let mut model = Model::spawn(opts.model.as_ref().expect("--model"));
+    let mut model = TModel::spawn(opts.model.as_ref().expect("--model"));
 
     if let Some(p) = &opts.replay {
         let j: J = serde_json::from_str(&std::fs::read_to_string(p).expect("replay file")).expect("replay json");
@@ -729,12 +1173,18 @@ fn main() {
         let tbl = Tbl::parse(rp["table"].as_str().unwrap_or(""), &names).expect("table");
         let roots: Vec<usize> = rp["roots"].as_array().map(|a| a.iter().map(|x| x.as_u64().unwrap_or(0) as usize).collect()).unwrap_or_default();
         println!("replay: {}", j["what"].as_str().unwrap_or(""));
-        let mut n2 = Names::new();
+        let mut srv = ImplServer::new();
+        let mut n2 = srv.set_table(&tbl);
         println!("model: {}", ask(&mut model, &tbl.sx(&mut n2)));
         let mut bad = false;
         for &a in &roots {
             for &b in &roots {
-                let (ic, io) = (impl_rel(&tbl, a, b, false), impl_rel(&tbl, a, b, true));
+                let mut one = |any: bool| match srv.rel(a, b, any) {
+                    Ok(c) => c,
+                    Err(Dead::Crash) => '!',
+                    Err(Dead::Hang) => 'H',
+                };
+                let (ic, io) = (one(false), one(true));
                 let (mc, mo) = (ask(&mut model, &format!("(compat {a} {b})")), ask(&mut model, &format!("(overlap {a} {b})")));
                 let wn = ask(&mut model, &format!("(witness notin {a} {b} {EFUEL} {WIDTH})"));
                 let wb = ask(&mut model, &format!("(witness both {a} {b} {EFUEL} {WIDTH})"));
@@ -748,9 +1198,10 @@ fn main() {
         std::process::exit(if bad { 1 } else { 0 });
     }
 
-    run_corpus(&mut ev, &mut model);
+    let mut srv = ImplServer::new();
+    run_corpus(&mut ev, &mut model, &mut srv);
 
-    let tables = opts.tier.pick(1400u64, 30000u64);
+    let tables = opts.tier.pick(4000u64, 60000u64);
     let narrow_pairs = opts.tier.pick(5usize, 10usize);
     let mut features: BTreeSet<&'static str> = BTreeSet::new();
     for i in 0..tables {
@@ -767,14 +1218,22 @@ fn main() {
         features.extend(fs);
         let pool_ids: Vec<usize> = case.pool.iter().map(|p| p.0).collect();
         let key = format!("t{i}");
-        if i % 350 == 0 {
+        if i % 1000 == 0 {
             let tbl = Tbl::of_program(&case.program);
             ev.sample(json!({"case": i, "stream": case.stream, "roots": pool_ids.iter().map(|p| tbl.show(*p)).collect::<Vec<_>>()}));
         }
-        run_table(&mut ev, &mut model, &case.program, &pool_ids, case.stream, &key, &mut r, narrow_pairs);
+        run_table(&mut ev, &mut model, &mut srv, &case.program, &pool_ids, &case.related, case.stream, &key, &mut r, narrow_pairs);
     }
     let times: J = TIMES.with(|t| json!(t.borrow().iter().map(|(k, v)| (k.clone(), json!({"requests": v.0, "seconds": (v.1 * 1000.0).round() / 1000.0}))).collect::<serde_json::Map<String, J>>()));
     ev.set_extra("model_time_s", times);
+    let mts: Vec<(String, String)> = MODEL_TIMEOUTS.with(|t| t.borrow().clone());
+    for (req, table) in mts.iter().take(3) {
+        let kind: String = req.trim_start_matches('(').split(' ').next().unwrap_or("").to_string();
+        report(&mut ev, &format!("model-timeout:{kind}"), &format!("the model driver did not answer `{req}` in time (a result of the implementation it cannot digest, or a model bug)"),
+            json!({"broken": format!("correspondence: model request {kind} timed out"), "request": req, "table": table}), false);
+    }
+    ev.set_extra("model_timeouts", json!(mts.len()));
+    ev.set_extra("impl_server_restarts", json!(srv.restarts));
     ev.set_extra("tables", json!(tables));
     ev.set_extra("model_requests", json!(model.requests));
     ev.set_extra("enum", json!({"efuel": EFUEL, "width": WIDTH}));
